@@ -3,7 +3,7 @@ import NitroVerif.Lemmas.StagesLoader
 import NitroVerif.Lemmas.StagesRender
 import NitroVerif.Lemmas.StagesJs
 import NitroVerif.Lemmas.StagesDecls
-import NitroVerif.Lemmas.StagesGenC
+import NitroVerif.Lemmas.StagesGenD
 import NitroVerif.Lemmas.StagesIface
 import NitroVerif.Lemmas.CheckOpSoundUsed
 import NitroVerif.Lemmas.Imports
@@ -21,8 +21,9 @@ results are unreachable — or reachable exactly under the stated condition.  de
 theorem, the panic sites of the Rust function that it covers.
 
 Side conditions of the generation theorems (all decidable, all necessary — each has a kernel-checked witness below):
-`SchemaValid S` (C03's schema sanity), `ifaceOkB S` (objects implement their interfaces; established by the schema checker
-for documents with unique type names, `ifaceOk_of_checked`), `skipIncludeB S` (a user definition that shadows `@skip` /
+`schemaOkB S` (unique type names, no field named `__typename`, union members are object types — a small part of C03's
+`SchemaValid`) and `ifaceOkB S` (objects implement their interfaces), both established by the schema checker for documents with
+unique type names (`schemaOk_of_checked`, `ifaceOk_of_checked`), `skipIncludeB S` (a user definition that shadows `@skip` /
 `@include` still requires `if` — the real code panics otherwise), `noKeyClashB` (one response key = one field, with or
 without sub-selection, recursively — the FieldsInSetCanMerge rule the checker lacks: the open finding).
 -/
@@ -119,7 +120,7 @@ section
 open NitroVerif.CheckOp NitroVerif.Valid NitroVerif.OpTypes
 
 /-- `generate_total_partial`: for every schema and every document the operation checker accepts, under the four
-    decidable side conditions (`SchemaValid`, `ifaceOkB`, `skipIncludeB` on the schema; `noKeyClashB` on the document,
+    decidable side conditions (`schemaOkB`, `ifaceOkB`, `skipIncludeB` on the schema; `noKeyClashB` on the document,
     evaluated at any fragment-nesting bound `Dc` at which the document fits and any depth `d`), the model of
     `get_type_for_selection_set` returns a selection tree for EVERY definition of the document and ALL sufficiently
     large fuels of the model: none of the 17 `expect("Type system error")` / `panic!("Type system error")` sites of
@@ -127,7 +128,7 @@ open NitroVerif.CheckOp NitroVerif.Valid NitroVerif.OpTypes
     fields of different types", "Cannot merge selection trees of different types") is reached, and neither fuel runs
     out.  (The fuels are artefacts of the model; that its own `fuelFor` / `mfuelFor` are among the sufficient ones is
     NOT claimed — see the OPEN block.) -/
-theorem generate_total_partial (S : Schema) (D : Doc) (hS : SchemaValid S) (hI : ifaceOkB S = true)
+theorem generate_total_partial (S : Schema) (D : Doc) (hS : schemaOkB S = true) (hI : ifaceOkB S = true)
     (hSI : skipIncludeB S = true) (h : checkOp S D = []) (Dc d : Nat) (hK : noKeyClashB S D Dc d = true) :
     ∃ N M, ∀ fuel, N ≤ fuel → ∀ mfuel, M ≤ mfuel → ∀ x ∈ D, ∀ r, treeOf S D mfuel fuel x = some r → ∃ T, r = .ok T :=
   doc_trees_ok hS hI hSI h hK
@@ -136,6 +137,26 @@ theorem generate_total_partial (S : Schema) (D : Doc) (hS : SchemaValid S) (hI :
 theorem treeOf_is_resultTree (S : Schema) (D : Doc) (x : ExecDef) :
     resultTree S D x = treeOf S D (OpTypes.mfuelFor D) (OpTypes.fuelFor D) x :=
   resultTree_eq S D x
+
+/-- `generate_no_rust_panic`: … and at EVERY pair of fuels — too small ones included — the result for every definition
+    is a tree or the model's own out-of-fuel value: the two fuels of the model can only replace a result by
+    `outOfFuel`, they never change it into (or between) the panics of the Rust code (`implTree` is monotone in both
+    fuels, `Lemmas/StagesFuel.lean`). -/
+theorem generate_no_rust_panic (S : Schema) (D : Doc) (hS : schemaOkB S = true) (hI : ifaceOkB S = true)
+    (hSI : skipIncludeB S = true) (h : checkOp S D = []) (Dc d : Nat) (hK : noKeyClashB S D Dc d = true)
+    (fuel mfuel : Nat) :
+    ∀ x ∈ D, ∀ r, treeOf S D mfuel fuel x = some r → (∃ T, r = .ok T) ∨ r = .error .outOfFuel :=
+  doc_trees_any_fuel hS hI hSI h hK fuel mfuel
+
+/-- … in particular at the model's own fuels, i.e. for `OpTypes.resultTree` itself — the function the K stream of C01
+    compares with the real printer, panics included: under the side conditions it never returns `typeSystemError`,
+    `mergeFieldsDifferentTypes` or `mergeTreesDifferentTypes`. -/
+theorem generate_resultTree_no_rust_panic (S : Schema) (D : Doc) (hS : schemaOkB S = true) (hI : ifaceOkB S = true)
+    (hSI : skipIncludeB S = true) (h : checkOp S D = []) (Dc d : Nat) (hK : noKeyClashB S D Dc d = true) :
+    ∀ x ∈ D, ∀ r, resultTree S D x = some r → (∃ T, r = .ok T) ∨ r = .error .outOfFuel := by
+  intro x hx r hr
+  rw [treeOf_is_resultTree] at hr
+  exact generate_no_rust_panic S D hS hI hSI h Dc d hK _ _ x hx r hr
 
 /-! ### witnesses: the hypotheses are satisfiable, and each side condition is necessary -/
 
@@ -170,7 +191,7 @@ def wDoc : Doc := [
 
 /-- the hypotheses of `generate_total_partial` hold of a non-trivial pair (alias, `@skip` on a variable, a fragment
     spread, an interface-typed field with an inline fragment), and the model's own fuels are sufficient there -/
-example : SchemaValid wSchema ∧ ifaceOkB wSchema = true ∧ skipIncludeB wSchema = true ∧ checkOp wSchema wDoc = [] ∧
+example : schemaOkB wSchema = true ∧ SchemaValid wSchema ∧ ifaceOkB wSchema = true ∧ skipIncludeB wSchema = true ∧ checkOp wSchema wDoc = [] ∧
     noKeyClashB wSchema wDoc 4 4 = true ∧
     wDoc.all (fun x => match resultTree wSchema wDoc x with | some (.ok _) => true | _ => false) = true := by
   decide +kernel
@@ -186,10 +207,39 @@ def clashDoc : Doc := [
     `query Q { n: a { x } n: f }` is accepted by the checker against a schema satisfying all three schema conditions,
     and the printer panics with "Cannot merge fields of different types"; `noKeyClashB` is exactly what fails. -/
 theorem generate_total_counterexample :
-    SchemaValid wSchema ∧ ifaceOkB wSchema = true ∧ skipIncludeB wSchema = true ∧ checkOp wSchema clashDoc = [] ∧
+    schemaOkB wSchema = true ∧ SchemaValid wSchema ∧ ifaceOkB wSchema = true ∧ skipIncludeB wSchema = true ∧ checkOp wSchema clashDoc = [] ∧
     (clashDoc.all fun x => match resultTree wSchema clashDoc x with
       | some (.error .mergeFieldsDifferentTypes) => true | _ => false) = true ∧
     noKeyClashB wSchema clashDoc 4 4 = false := by
+  decide +kernel
+
+/-- a named type under `n` list markers -/
+def wrapN : Nat → GType → GType
+  | 0, t => t
+  | n + 1, t => .list (wrapN n t) {}
+
+/-- `type A { x: Int }  type Query { a: [[…[A]…]] }` with `n` list markers -/
+def deepSchema (n : Nat) : Schema := ⟨builtinScalars ++ [skipDef,
+  .typeDef { kind := .object, name := "A", fields := [{ name := "x", ty := .named "Int" {} }] },
+  .typeDef { kind := .object, name := "Query", fields := [{ name := "a", ty := wrapN n (.named "A" {}) }] }]⟩
+
+/-- `query Q { a { x } a { x } }` -/
+def deepDoc : Doc := [
+  .op { kind := .query, name := some ("Q", {}),
+        sel := [.field none "a" {} [] [] (some [.field none "x" {} [] [] none]),
+                .field none "a" {} [] [] (some [.field none "x" {} [] [] none])] }]
+
+/-- `generate_resultTree_no_rust_panic` cannot be strengthened to "a tree" at the model's own fuels: with a field type
+    under 70 list markers (more than `mfuelFor = docSize + 64 = 69`) all side conditions hold and the MODEL runs out of
+    its merge fuel, while with 66 markers it returns a tree.  A limit of the model (the Rust recursion has no such bound);
+    the K stream never generates such types. -/
+theorem model_fuels_not_sufficient_witness :
+    schemaOkB (deepSchema 70) = true ∧ SchemaValid (deepSchema 70) ∧ ifaceOkB (deepSchema 70) = true ∧ skipIncludeB (deepSchema 70) = true ∧
+    checkOp (deepSchema 70) deepDoc = [] ∧ noKeyClashB (deepSchema 70) deepDoc 4 4 = true ∧
+    (deepDoc.all fun x => match resultTree (deepSchema 70) deepDoc x with
+      | some (.error .outOfFuel) => true | _ => false) = true ∧
+    (deepDoc.all fun x => match resultTree (deepSchema 66) deepDoc x with
+      | some (.ok _) => true | _ => false) = true := by
   decide +kernel
 
 /-- `directive @skip on FIELD  type Query { a: Int }` — a user definition that shadows the built-in `@skip` (built-ins
@@ -230,7 +280,7 @@ def badImplDoc : Doc := [
     type (`I` has `x`), the printer on every possible object type (`A` has no `x`).  In the real pipeline this schema does
     not get that far: the schema checker rejects it, which is what `ifaceOk_of_checked` states in general. -/
 theorem generate_needs_ifaceOk :
-    SchemaValid badImplSchema ∧ skipIncludeB badImplSchema = true ∧ checkOp badImplSchema badImplDoc = [] ∧
+    schemaOkB badImplSchema = true ∧ SchemaValid badImplSchema ∧ skipIncludeB badImplSchema = true ∧ checkOp badImplSchema badImplDoc = [] ∧
     noKeyClashB badImplSchema badImplDoc 4 4 = true ∧
     (badImplDoc.all fun x => match resultTree badImplSchema badImplDoc x with
       | some (.error .typeSystemError) => true | _ => false) = true ∧
@@ -366,6 +416,18 @@ theorem ifaceOk_of_checked (T : TsDoc) (hu : uniqueTypeNames T = true) (h : chec
     ifaceOkB ⟨T⟩ = true :=
   ifaceOk_of_accepted hu h
 
+/-- `schemaOk_of_checked`: … and `schemaOkB`: unique type names are the hypothesis, the members of every union are
+    defined object types by the checker's `NonObjectTypeUnionMember` / `UnknownType`; "no type declares a field named
+    `__typename`" stays a hypothesis because the abstract `TypeDef` can carry fields on any kind while the checker looks
+    at the fields of object and interface types only (for those it reports every name starting with `__`). -/
+theorem schemaOk_of_checked (T : TsDoc) (hu : uniqueTypeNames T = true) (h : checkSchema T = [])
+    (hnr : Valid.noReservedFieldsB ⟨T⟩ = true) : schemaOkB ⟨T⟩ = true :=
+  schemaOk_of_accepted hu h hnr
+
+/-- C03's `SchemaValid` implies it as well -/
+theorem schemaOk_of_schemaValid (S : Schema) (h : Valid.SchemaValid S) : schemaOkB S = true :=
+  schemaOk_of_valid h
+
 end
 
 /-! ## composition -/
@@ -376,11 +438,13 @@ open NitroVerif.CheckOp NitroVerif.Valid NitroVerif.OpTypes NitroVerif.FragClosu
 
 /-- `pipeline_no_panic_partial`: for EVERY resolved schema document `T` and operation document `D` (whatever texts
     they were parsed from): if both checks report nothing, then under the explicit decidable side conditions —
-    schema: `SchemaValid`, `skipIncludeB`, unique type names (`ifaceOkB` follows: `ifaceOk_of_checked`); document:
+    schema: unique type names, no field named `__typename`, `skipIncludeB` (`schemaOkB` and `ifaceOkB` follow from the
+    schema check: `schemaOk_of_checked`, `ifaceOk_of_checked`; nothing else of C03's `SchemaValid` is needed); document:
     `noKeyClashB` (no response key shared
     by different fields / by a leaf and an object, at some bound `Dc` at which the document fits) — no model of a
     generation stage reaches a panic result:
-    (1) the operation type printer returns a tree for every definition, for all sufficiently large fuels;
+    (1) the operation type printer returns a tree for every definition, for all sufficiently large fuels, and at the
+        model's own fuels a tree or the model's out-of-fuel value — never a panic of the Rust code;
     (2) the JavaScript / JSON printer produces the runtime document of every definition;
     (3) the schema and resolver declaration printers find every name they look up.
     Together with `parse_no_panic` (no text makes a parser model panic), `resolveExt_total`, `resolveImports_total`,
@@ -388,13 +452,15 @@ open NitroVerif.CheckOp NitroVerif.Valid NitroVerif.OpTypes NitroVerif.FragClosu
     stage are rendered without panic for positions inside the file store) this covers every stage of `check` and
     `generate`. -/
 theorem pipeline_no_panic_partial (T : TsDoc) (D : Doc)
-    (hS : SchemaValid ⟨T⟩) (hSI : skipIncludeB ⟨T⟩ = true) (hu : uniqueTypeNames T = true)
+    (hnr : noReservedFieldsB ⟨T⟩ = true) (hSI : skipIncludeB ⟨T⟩ = true) (hu : uniqueTypeNames T = true)
     (hT : checkSchema T = []) (hD : checkOp ⟨T⟩ D = []) (Dc d : Nat) (hK : noKeyClashB ⟨T⟩ D Dc d = true) :
     (∃ N M, ∀ fuel, N ≤ fuel → ∀ mfuel, M ≤ mfuel → ∀ x ∈ D, ∀ r, treeOf ⟨T⟩ D mfuel fuel x = some r → ∃ t, r = .ok t) ∧
+    (∀ x ∈ D, ∀ r, resultTree ⟨T⟩ D x = some r → (∃ t, r = .ok t) ∨ r = .error .outOfFuel) ∧
     (∀ x ∈ D, ∃ ds, runtimeDefs D x = .ok ds) ∧
     (∀ n ∈ declLookups T, n ∈ declKeys T) ∧ (∀ td ∈ typeDefs T, inputSelfLookupOk T td = true) :=
-  ⟨generate_total_partial ⟨T⟩ D hS (ifaceOk_of_checked T hu hT) hSI hD Dc d hK,
-   js_printers_total ⟨T⟩ D (schemaValid_noReserved hS) hD,
+  ⟨generate_total_partial ⟨T⟩ D (schemaOk_of_checked T hu hT hnr) (ifaceOk_of_checked T hu hT) hSI hD Dc d hK,
+   generate_resultTree_no_rust_panic ⟨T⟩ D (schemaOk_of_checked T hu hT hnr) (ifaceOk_of_checked T hu hT) hSI hD Dc d hK,
+   js_printers_total ⟨T⟩ D hnr hD,
    (schemaDecls_lookups_total T hT).1, (schemaDecls_lookups_total T hT).2 hu⟩
 
 /-- the same, from the TEXTS of a one-file schema and a one-file operation document (`builtins` = the definitions the
@@ -404,17 +470,18 @@ theorem pipeline_no_panic_texts (schemaText opText : List Char) (builtins : TsDo
     (parseTs schemaText).isPanic = false ∧ (parseOp opText).isPanic = false ∧
     ∀ T0 T D, parseTs schemaText = .ok T0 → ExtResolve.resolve (T0 ++ builtins) = .ok T → parseOp opText = .ok D →
       checkSchema T = [] → checkOp ⟨T⟩ D = [] →
-      SchemaValid ⟨T⟩ → skipIncludeB ⟨T⟩ = true → uniqueTypeNames T = true →
+      noReservedFieldsB ⟨T⟩ = true → skipIncludeB ⟨T⟩ = true → uniqueTypeNames T = true →
       ∀ Dc d, noKeyClashB ⟨T⟩ D Dc d = true →
       (∃ N M, ∀ fuel, N ≤ fuel → ∀ mfuel, M ≤ mfuel → ∀ x ∈ D, ∀ r, treeOf ⟨T⟩ D mfuel fuel x = some r → ∃ t, r = .ok t) ∧
+      (∀ x ∈ D, ∀ r, resultTree ⟨T⟩ D x = some r → (∃ t, r = .ok t) ∨ r = .error .outOfFuel) ∧
       (∀ x ∈ D, ∃ ds, runtimeDefs D x = .ok ds) ∧
       (∀ n ∈ declLookups T, n ∈ declKeys T) ∧ (∀ td ∈ typeDefs T, inputSelfLookupOk T td = true) := by
   refine ⟨(parse_no_panic schemaText).2, (parse_no_panic opText).1, ?_⟩
-  · intro T0 T D _ _ _ hT hD hS hSI hu Dc d hK
-    exact pipeline_no_panic_partial T D hS hSI hu hT hD Dc d hK
+  · intro T0 T D _ _ _ hT hD hnr hSI hu Dc d hK
+    exact pipeline_no_panic_partial T D hnr hSI hu hT hD Dc d hK
 
 /-- the hypotheses of the composition are satisfiable together: the witness schema (as a resolved document) and document -/
-example : SchemaValid ⟨wSchema.items⟩ ∧ skipIncludeB ⟨wSchema.items⟩ = true ∧
+example : schemaOkB ⟨wSchema.items⟩ = true ∧ noReservedFieldsB ⟨wSchema.items⟩ = true ∧ skipIncludeB ⟨wSchema.items⟩ = true ∧
     uniqueTypeNames wSchema.items = true ∧ checkSchema wSchema.items = [] ∧ checkOp ⟨wSchema.items⟩ wDoc = [] ∧
     noKeyClashB ⟨wSchema.items⟩ wDoc 4 4 = true := by
   decide +kernel
@@ -428,14 +495,13 @@ OPEN — carried by K/O only (stated, not proved), after this file:
   which runs every public entry point under catch_unwind / in a child process).  The panic sites of the schema and
   resolver declaration printers are NOT in `Model/SchemaDecls.lean`; `schemaDecls_lookups_total` speaks about a hand
   transcription of them (`Lemmas/StagesDecls.lean`).
-* `generate_total_partial` is about "all sufficiently large fuels".  That the model's own `fuelFor d = 2·docSize + 4`,
-  `mfuelFor d = docSize + 64` are sufficient is NOT proved and is false for the model on extreme inputs (a field type
-  wrapped in more than `docSize + 64` list / non-null markers merged under one key; C01's sufficient bound `eszL` counts
-  a fragment body once per spread).  These are limits of the model, not behaviours of the Rust code; K never met them.
-* that no OTHER panic of the model than `outOfFuel` occurs when the fuels are too small (monotonicity of `implTree` in
-  its two fuels) is not proved.
-* `SchemaValid` contains facts the schema checker does not establish (unique directive names, root operation types
-  are defined object types — C05's open findings); they stay explicit hypotheses.
+* `generate_total_partial` gives a tree for "all sufficiently large fuels"; `generate_resultTree_no_rust_panic` gives
+  "tree or `outOfFuel`" at the model's own `fuelFor d = 2·docSize + 4`, `mfuelFor d = docSize + 64`.  That these are
+  SUFFICIENT (no `outOfFuel` at all) is false for the model on extreme inputs (`model_fuels_not_sufficient_witness`: a
+  field type wrapped in more than `docSize + 64` list markers merged under one key) and not proved for ordinary ones.  `outOfFuel` is a limit of the model, not a
+  behaviour of the Rust code (whose recursion is bounded by its stack only); K never met it.
+* the three schema-side hypotheses of `pipeline_no_panic_partial` that no check establishes: unique type names across
+  kinds, no field named `__typename` on a type of a kind without fields (vacuous for parsed documents), `skipIncludeB`.
 * `parse_config`, plugin hosts, the file system and the CLI process (C18's assumptions) have no theorem here.
 -/
 
